@@ -208,12 +208,65 @@ def run(chk: Check, eng: Engine) -> None:
         else:
             chk.bad("R16-e", eng.relfile(m), m.line, m.fq, f"{name} does not exclude read-only nodes by default", "search operators see generator-owned nodes as candidates", keyparts=f"default|{name}")
     mu = eng.method(eng.cls("fandango.evolution.mutation", "SimpleMutation"), "mutate", inherited=False)
-    filters = [l for l in walk_local(mu.node) if isinstance(l, ast.Lambda) and "not x.read_only" in norm(l.body)]
+    mu_mod = eng.ix.modules[mu.module]
+
+    def implies_writable(pred: ast.AST, var: str, depth: int = 0) -> bool:
+        """Does `pred` (a boolean expression over `var`) being true imply `not var.read_only`?"""
+        if isinstance(pred, ast.BoolOp) and isinstance(pred.op, ast.And):
+            return any(implies_writable(v, var, depth) for v in pred.values)
+        if isinstance(pred, ast.UnaryOp) and isinstance(pred.op, ast.Not) and norm(pred.operand) in (f"{var}.read_only", f"{var}._read_only"):
+            return True
+        if isinstance(pred, ast.Call) and depth < 2 and len(pred.args) == 1 and isinstance(pred.args[0], ast.Name) and pred.args[0].id == var:
+            callee = None
+            if isinstance(pred.func, ast.Name):
+                r = eng.ix.resolve_name(mu_mod, pred.func.id)
+                callee = r if hasattr(r, "node") and getattr(r, "cls", None) is None else None
+            elif isinstance(pred.func, ast.Attribute) and self_attr(pred.func) and mu.cls is not None:
+                callee = mu.cls.lookup(pred.func.attr)
+            if callee is not None:
+                ps = [p_ for p_ in callee.params() if p_ != "self"]
+                rets = [r_ for r_ in walk_local(callee.node) if isinstance(r_, ast.Return) and r_.value is not None]
+                return bool(ps) and bool(rets) and all(implies_writable(r_.value, ps[0], depth + 1) for r_ in rets)
+        return False
+
+    def filtered_writable(e: ast.AST, depth: int = 0) -> bool:
+        """Is every element of list expression `e` known to be writable (or the already chosen, writable node itself)?"""
+        if isinstance(e, ast.BinOp) and isinstance(e.op, ast.Add):
+            return filtered_writable(e.left, depth) and filtered_writable(e.right, depth)
+        if isinstance(e, ast.List):
+            return all(isinstance(x, ast.Name) and x.id in chosen for x in e.elts)
+        if isinstance(e, ast.Call) and isinstance(e.func, ast.Name) and e.func.id in ("list", "tuple", "sorted") and e.args:
+            return filtered_writable(e.args[0], depth)
+        if isinstance(e, ast.Call) and isinstance(e.func, ast.Name) and e.func.id == "filter" and len(e.args) == 2:
+            f_ = e.args[0]
+            if isinstance(f_, ast.Lambda) and f_.args.args:
+                return implies_writable(f_.body, f_.args.args[0].arg)
+            if isinstance(f_, (ast.Name, ast.Attribute)):
+                return implies_writable(ast.Call(func=f_, args=[ast.Name(id="_x", ctx=ast.Load())], keywords=[]), "_x")
+        if isinstance(e, (ast.ListComp, ast.GeneratorExp)) and len(e.generators) == 1 and isinstance(e.generators[0].target, ast.Name) and isinstance(e.elt, ast.Name) \
+                and e.elt.id == e.generators[0].target.id:
+            return any(implies_writable(c, e.elt.id) for c in e.generators[0].ifs)
+        if isinstance(e, ast.Name) and depth < 3:
+            defs = sorted((a for a in walk_local(mu.node) if isinstance(a, ast.Assign) and any(isinstance(t_, ast.Name) and t_.id == e.id for t_ in a.targets)
+                           and a.lineno < e.lineno), key=lambda a: a.lineno)
+            # a list that is first collected and then re-bound to its filtered self: the last definition before the draw counts
+            return bool(defs) and filtered_writable(defs[-1].value, depth + 1)
+        return False
+
+    chosen: set[str] = set()
     choices = [c for c in walk_local(mu.node) if isinstance(c, ast.Call) and norm(c.func) == "random.choice"]
-    if len(filters) >= len(choices) >= 1:
-        chk.ok("R16-e", mu.fq, mu.line, f"both candidate lists of mutate() are filtered with `not x.read_only` ({len(filters)} filters, {len(choices)} choices)")
+    choices.sort(key=lambda c: c.lineno)
+    n_ok = 0
+    for c in choices:
+        if c.args and filtered_writable(c.args[0]):
+            n_ok += 1
+        for a in walk_local(mu.node):
+            if isinstance(a, ast.Assign) and a.value is c:
+                chosen |= {t_.id for t_ in a.targets if isinstance(t_, ast.Name)}
+    if choices and n_ok == len(choices):
+        chk.ok("R16-e", mu.fq, mu.line, f"every list mutate() draws a target from holds only writable nodes ({len(choices)} draw(s))")
     else:
-        chk.bad("R16-e", eng.relfile(mu), mu.line, mu.fq, f"mutate() draws {len(choices)} time(s) but filters read-only nodes only {len(filters)} time(s)",
+        chk.bad("R16-e", eng.relfile(mu), mu.line, mu.fq, f"mutate() draws {len(choices)} time(s) but only {n_ok} of the candidate lists are filtered for writable nodes",
                 "a generator-owned node can be chosen as mutation target", keyparts="mutation-readonly")
 
     # ---- R16-f ---------------------------------------------------------------
